@@ -71,6 +71,10 @@ def tasks(tier, seed, selftest=False):
         for qy in ("cands", "seeds"):
             S.append(dict(family=fam, skeleton=(qy,), timebox=12 if q else 600, tag="cfg", params={"cfg": True}))
             S.append(dict(family=fam, skeleton=("succ", qy), timebox=10 if q else 600, tag="cfg", params={"cfg": True}))
+    # inputs presented as free inputs (variables without update function)
+    for qy in ("cands", "seeds", "sets", "build"):
+        S.append(dict(family="D3", skeleton=(qy,), timebox=8 if q else 600, tag="free-inputs", params={"free_inputs": True}))
+        S.append(dict(family="S1C2", skeleton=(qy,), timebox=8 if q else 600, tag="free-inputs", params={"free_inputs": True}))
     # four free variables: the simulation budget (1000 x variables) exceeds the first pass only from here on
     for fam in ("P:SW2+SW2", "B22"):
         for qy in ("seeds", "cands"):
